@@ -505,6 +505,8 @@ class Interp:
             return self.lval(children(n)[0], env)
         if k == 'UnaryOperator' and n.get('opcode') == '*':
             o = self.expr(children(n)[0], env)
+            if isinstance(o, Obj) and o.cls == '(errno)':
+                return ('field', o, 'v', n)
             if isinstance(o, Obj):
                 return ('obj', o)
         if k == 'CXXMemberCallExpr':
@@ -932,6 +934,17 @@ class Interp:
             r = self.hooks(self, n, kind, name, did, obj, args, env)
             if r is not NotImplemented:
                 return r
+        if kind == 'function' and name == '__errno_location' and not args:
+            # errno: one int cell per interpreter (library calls that fail are modelled by the client hooks, which may set it)
+            if not hasattr(self, 'errno_cell'):
+                self.errno_cell = Obj('(errno)', {'v': const(32, True, 0)}, 'errno')
+            return self.errno_cell
+        if name in ('max', 'min', 'lowest') and not args and n['kind'] == 'CallExpr' and (did is None or did not in self.idx.func_by_id):
+            # static std::numeric_limits<T>::max() / min(): T is the type of the call
+            ti = tinfo(n, self.idx)
+            if ti:
+                lo_, hi_ = rng(ti[0], ti[1])
+                return const(ti[0], ti[1], hi_ if name == 'max' else lo_)
         if kind == 'function' and name in ('move', 'forward') and len(args) == 1:
             try:
                 lv = self.lval(args[0], env)
